@@ -364,9 +364,10 @@ func (p *Prop[C]) Eval(tb TB, c C) Outcome {
 	}
 	var stopWatch chan struct{}
 	if WatchdogSeconds > 0 {
-		// A case is a suspect when it has burnt WatchdogSeconds/2 of CPU time and WatchdogSeconds of
-		// wall time without returning (a loop), or has not returned after six times the limit (a
-		// deadlock). Wall time alone would accuse cheap cases on a loaded machine.
+		// A case is a suspect when it has burnt WatchdogSeconds of CPU time (of this process, garbage
+		// collection included) and as much wall time without returning (a loop), or has not returned
+		// after six times the limit (a deadlock). Wall time alone would accuse cheap cases on a loaded
+		// machine.
 		stopWatch = make(chan struct{})
 		start, cpu0 := time.Now(), cpuTime()
 		go func() {
@@ -380,7 +381,7 @@ func (p *Prop[C]) Eval(tb TB, c C) Outcome {
 				}
 				wall := time.Since(start)
 				limit := time.Duration(WatchdogSeconds) * time.Second
-				if (wall >= limit && cpuTime()-cpu0 >= limit/2) || wall >= 6*limit {
+				if (wall >= limit && cpuTime()-cpu0 >= limit) || wall >= 6*limit {
 					o := Outcome{Violation: fmt.Sprintf("case did not return within %v (cpu %v)", wall.Round(time.Second), (cpuTime() - cpu0).Round(time.Second)), Signature: "timeout"}
 					writeReplay(os.Getenv("VERIF_SUSPECT"), caseJSON, &o, "watchdog suspect")
 					fmt.Fprintf(os.Stderr, "SUSPECT-TIMEOUT property=%s\n", propID)
